@@ -15,6 +15,26 @@ FORCES = [dict(n_live=8, n_update=1, n_batch=3, n_networks=0, family='twomode', 
 def main(run: Run, audit):
     n = N_QUICK if run.tier == 'quick' else N_THOROUGH
     shellfam.run_family(run, 'C03', n, forces=FORCES, extras=EXTRAS)
+    # an integer likelihood pool: the sampler creates a real multiprocessing pool and caches the likelihood in its workers (this
+    # cannot run inside a daemonic worker, so it runs here), with likelihood_kwargs overriding a keyword that has a default
+    import numpy as np
+    import trace as T
+    rng = np.random.default_rng(run.seed + 77)
+    cfg = T.make_config(rng, 0, run.tier, dict(family='gauss', n_dim=2, n_live=40, n_batch=8, n_update=None, n_networks=0, blob='float', vectorized=False, prior_object=False,
+                                                prior_inplace=False, pool_l='real', pool_s=None, lik_tilt=0.6, resumes=0, toggles=0, max_batches=120, max_seconds=60,
+                                                periodic=None, n_points_min=None, split_threshold=100, n_like_new_bound=None, n_eff=100, n_shell=1, discard_at_end=False))
+    r = shellfam.worker((cfg, 'C03', dict(tmp=run.tmp)))
+    run.cov['real_pool_run'] = dict(events=r.get('events'), posterior_rows_checked=r.get('n_rows'), crashed=bool(r.get('crashed')))
+    if r.get('crashed'):
+        run.violation('traced run with a real likelihood pool crashed in the harness (fail closed): ' + r['crashed'][-400:], dict(kind='harness', config=cfg, broken='trace harness'), False)
+    else:
+        direct = r['fails'].get('C03', []) + r['fails'].get('ANY', [])
+        if direct:
+            run.violation('C03 direct predicate fails on the implementation (integer likelihood pool with likelihood_kwargs): %s' % direct[0][0],
+                          dict(kind='direct', config=cfg, what=direct[0][0], detail=direct[0][1]), True, key='C03:' + direct[0][0][:30])
+        elif not r['model_ok']:
+            run.violation('correspondence sampler ~ Shell2.step broken for the fields relevant to C03 with an integer likelihood pool: %s' % (r['model_diff'][:1],),
+                          dict(kind='correspondence', broken='sampler.py evaluate_likelihood (pool path) ~ Shell2.step oracle tables', config=cfg, difference=r['model_diff']), False)
 
 
 def replay(path):
